@@ -4,6 +4,7 @@
 #include <cstring>
 #include <string>
 #include <map>
+#include <vector>
 #include <cds/intrusive/details/feldman_hashset_base.h>
 typedef unsigned long long ull;
 static std::map<std::string, ull> A;
